@@ -1248,6 +1248,9 @@ func (a *analysis) oracleC15() verdict {
 				return a.fv("debug-without-error", "no render returned an error, yet the debug output reports %q: %q", t, dbg)
 			}
 		}
+		if a.faultHappened() {
+			return a.fv("error-swallowed:output", "the output writer returned an error (after taking part of the frame or none of it) but no render cycle failed: the container kept rendering")
+		}
 		if k := a.rr.faultsReturned.Load(); k > 0 {
 			return a.fv("error-swallowed:"+a.faultSite(), "a filler/extender returned an error %d time(s) (%v) but no render cycle failed: the container kept rendering", k, a.faultErrText())
 		}
@@ -1323,6 +1326,28 @@ func (a *analysis) notifierAfterError(site string) *verdict {
 		}
 		seen[b] = true
 	}
+	// output write failed: the bars of that frame had all been taken off the heap for
+	// it; those that nothing could have finished meanwhile are still in the container
+	if n := len(a.frames); n > 0 && site == "output" {
+		var lf *Frame
+		for i := n - 1; i >= 0; i-- {
+			if !a.frames[i].Failed {
+				lf = &a.frames[i]
+				break
+			}
+		}
+		if lf != nil {
+			for _, g := range lf.Groups {
+				if g.ID < 0 || g.ID >= len(sc.Bars) || g.C || g.A || a.mayHaveCompleted(g.ID) || a.abortCalled(g.ID) {
+					continue
+				}
+				if !seen[g.ID] {
+					v := a.fv("notifier-missing:"+site, "bar %d was running in the last frame that reached the output, nothing could have finished it, the output writer then failed; the shutdown notifier's list %v lacks it", g.ID, rr.notif[0])
+					return &v
+				}
+			}
+		}
+	}
 	// bars the last good frame shows running are still in the container
 	if n := len(a.frames); n > 0 && site != "output" {
 		lf := a.frames[n-1]
@@ -1340,6 +1365,15 @@ func (a *analysis) notifierAfterError(site string) *verdict {
 		}
 	}
 	return nil
+}
+
+func (a *analysis) abortCalled(bi int) bool {
+	for _, o := range a.hist() {
+		if o.Op.K == "abort" && o.Op.B == bi && !o.Skipped {
+			return true
+		}
+	}
+	return false
 }
 
 func (a *analysis) faultErrText() string {
